@@ -128,15 +128,16 @@ func (txMap *txListBySenderMap) RemoveSendersBulk(senders []string) uint32 {
 
 // removeTransactionsWithHigherOrEqualNonce removes transactions with nonces higher or equal to the given nonce.
 // Useful for the eviction flow.
-func (txMap *txListBySenderMap) removeTransactionsWithHigherOrEqualNonce(accountKey []byte, nonce uint64) {
+func (txMap *txListBySenderMap) removeTransactionsWithHigherOrEqualNonce(accountKey []byte, nonce uint64) [][]byte {
 	sender := string(accountKey)
 	listForSender, ok := txMap.getListForSender(sender)
 	if !ok {
-		return
+		return nil
 	}
 
-	listForSender.removeTransactionsWithHigherOrEqualNonce(nonce)
+	evicted := listForSender.removeTransactionsWithHigherOrEqualNonce(nonce)
 	txMap.removeSenderIfEmpty(listForSender)
+	return evicted
 }
 
 func (txMap *txListBySenderMap) getSenders() []*txListForSender {
